@@ -28,14 +28,29 @@ PIECES = {
 KINDS = ["clean", "fixable", "fixable", "unfixable", "unparsable", "jinja", "jinja", "inline"]
 BYTE_LIMIT = 400
 
-SUB_CONFIGS = {
-    "ctx": "[sqlfluff:templater:jinja:context]\ncol = b\nflag = False\n",
-    "caps": "[sqlfluff:rules:capitalisation.keywords]\ncapitalisation_policy = lower\n",
-    "maxlen": "[sqlfluff]\nmax_line_length = 20\n",
-    "excl": "[sqlfluff]\nexclude_rules = LT01,LT09\n",
-    "tiny-limit": "[sqlfluff]\nlarge_file_skip_byte_limit = 30\n",
-    "rules": "[sqlfluff]\nrules = LT01,CP01,LT12\n",
+SUB_CONFIGS = {  # name -> {section: {key: value}} of the nested sub/.sqlfluff
+    "ctx": {"sqlfluff:templater:jinja:context": {"col": "b", "flag": "False"}},
+    "caps": {"sqlfluff:rules:capitalisation.keywords": {"capitalisation_policy": "lower"}},
+    "maxlen": {"sqlfluff": {"max_line_length": "20"}},
+    "excl": {"sqlfluff": {"exclude_rules": "LT01,LT09"}},
+    "tiny-limit": {"sqlfluff": {"large_file_skip_byte_limit": "30"}},
+    "rules": {"sqlfluff": {"rules": "LT01,CP01,LT12"}},
 }
+
+
+def sub_config_text(names):
+    merged = {}
+    for n in names:
+        for sect, vals in SUB_CONFIGS[n].items():
+            merged.setdefault(sect, {}).update(vals)
+    lines = []
+    for sect in sorted(merged):
+        lines.append("[%s]" % sect)
+        lines += ["%s = %s" % kv for kv in sorted(merged[sect].items())]
+        lines.append("")
+    return "\n".join(lines)
+
+
 CLI_EXTRA = [[], [], ["--exclude-rules", "LT12"], ["--exclude-rules", "CP01,LT02"], ["--rules", "core"],
              ["--rules", "LT01,LT02,CP01,LT12,AM01,LT05"]]
 DIRS = ["", "", "sub", "sub", "sub/deep", "other"]
@@ -67,7 +82,7 @@ def root_config(case):
 def project_files(case):
     files = {".sqlfluff": root_config(case)}
     if case.get("sub_cfg"):
-        files["sub/.sqlfluff"] = "\n".join(SUB_CONFIGS[k] for k in case["sub_cfg"])
+        files["sub/.sqlfluff"] = sub_config_text(case["sub_cfg"])
     for f in case["files"]:
         files[f["path"]] = f["sql"]
     return files
@@ -208,7 +223,7 @@ class C24(Check):
         return 2 if tier == "quick" else 40
 
     def budget_s(self, tier):
-        return 200.0 if tier == "quick" else 1700.0
+        return 300.0 if tier == "quick" else 1700.0
 
     # ------------------------------------------------------------------------------------------ one case
 
